@@ -66,6 +66,9 @@ def cases(tier, seed):
     for d in devs[:1] if quick else devs[:3]:
         for a, b in itertools.permutations(["None", "0", "1", "0.6+0.8j"], 2):
             out.append(dict(fam="seeded", dev=d, seed_value=a, value=b, drive="both"))
+    for d in devs[:1] if quick else devs[:3]:
+        for a, b in (("None", "0"), ("1", "0"), ("0.6+0.8j", "0"), ("0", "1"), ("None", "0.6+0.8j")):
+            out.append(dict(fam="seeded", dev=d, seed_value=a, value=b, drive="both", reuse_options=True))
     # histories: several solves on the *same* device / mesh object with different terminal values
     for d in devs[:2]:
         for hist in (["0", "0"], ["1", "0"], ["None", "0.6+0.8j"]):
@@ -164,7 +167,8 @@ def run_seeded(case):
                            terminal_psi=VALUES[case["seed_value"]], progress_interval=10**9)
     seed = tdgl.solve(dev, o, **_drive(case["dev"], case["drive"]))
     sub = dict(fam="pin", dev=case["dev"], value=case["value"], drive=case["drive"], screening=False)
-    res = run_pin(sub, dev=dev, path="seeded.h5", seed=seed)
+    # reuse_options: the caller keeps one SolverOptions object, edits it and solves again (the seed solution refers to that object)
+    res = run_pin(sub, dev=dev, path="seeded.h5", seed=seed, reuse_options=(o if case.get("reuse_options") else None))
     for v in res.violations:
         v["sig"]["seeded_from_value"] = case["seed_value"]
         v["detail"]["case"] = case
@@ -174,7 +178,7 @@ def run_seeded(case):
     return res
 
 
-def run_pin(case, dev=None, path="out.h5", seed=None):
+def run_pin(case, dev=None, path="out.h5", seed=None, reuse_options=None):
     import h5py
     import tdgl
 
@@ -191,6 +195,11 @@ def run_pin(case, dev=None, path="out.h5", seed=None):
         solve_time=nsteps * dt, dt_init=dt, dt_max=dt, adaptive=False, save_every=1, output_file=path, terminal_psi=v,
         include_screening=case["screening"], screening_tolerance=1e-2, progress_interval=10**9, skip_time=(3 * dt if case.get("thermal") else 0.0),
     )
+    if reuse_options is not None:
+        for f in ("solve_time", "dt_init", "dt_max", "adaptive", "save_every", "output_file", "terminal_psi", "include_screening", "screening_tolerance",
+                  "progress_interval", "skip_time"):
+            setattr(reuse_options, f, getattr(opts, f))
+        opts = reuse_options
     kw = _drive(case["dev"], case["drive"])
     try:
         tdgl.solve(dev, opts, seed_solution=seed, **kw)
